@@ -42,7 +42,7 @@ fn check_tied(ctx: &mut Ctx, tag: &str, layer: &Layer, period: usize) {
         _ => return,
     };
     let n = fb.layers.len();
-    ctx.fact(&format!("{}-layer-count", tag), n % period == 0, format!("{} layers, period {}", n, period));
+    ctx.require(n % period == 0, "the block stores one layer object per unrolled repetition");
     for j in 0..period {
         let (w0, b0) = hooks::params(&fb.layers[j]);
         let (e0, eb0): (V1, V1) = (w0.iter().flat_map(elems).collect(), b0.as_ref().map(elems).unwrap_or_default());
